@@ -148,6 +148,11 @@ func (c *client) run(s *coop.Sched, dec *lazyproto.Decoder) {
 		case opRange:
 			c.obs = append(c.obs, obs{desc: "Range", input: h.input, path: h.path, kind: opRange, got: lazysim.RangeOutcome(h.res)})
 		case opClose:
+			if h.top != h && o.which%2 == 0 {
+				// Close on a nested result is documented as a no-op: the handle stays in use
+				_ = h.res.Close()
+				continue
+			}
 			top := h.top
 			_ = top.res.Close()
 			out := c.live[:0]
@@ -192,6 +197,7 @@ func genOp(t *rapid.T, k int) op {
 		o.which = rapid.IntRange(0, 3).Draw(t, "which")
 	default:
 		o.sel = rapid.IntRange(0, 3).Draw(t, "sel")
+		o.which = rapid.IntRange(0, 3).Draw(t, "which")
 	}
 	return o
 }
